@@ -69,7 +69,7 @@ def plan(tier, seed=0):
                 [(g, "BS", "s0", "lite", ALL) for g in q] + [(sg, "B1", "s0", "lite", ALL)])
     allg = [g.gid for g in splib.family()]
     return ([(g, b, s, "full", ALL) for g in q + [sg] for b in ("I", "B1", "BS") for s in ("s0", "s0.4")] +
-            [(g, b, "s0", "full", splib.FK_SUBGRID) for g in allg for b in ("I", "B1", "BS")] +
+            [(g, b, "s0", "full", splib.FK_SUBGRID) for g in allg if g not in q for b in ("I", "B1", "BS")] +
             [(g, b, "s0", "lite", ALL) for g in allg for b in ("I", "B1", "BS")])
 
 
